@@ -23,10 +23,10 @@ ASSUMPTIONS = ['columns are exactly coercible to the required dtypes (no NaN in 
 REFUSE = ['not_a_frame', 'empty', 'missing_column', 'duplicates', 'type0_coincident', 'vv_coincident']
 REQUIRED = ['refuse:' + r for r in REFUSE] + ['accept', 'legal_coincidence_other_ceilo', 'duplicate_only_after_coercion',
             'duplicate_only_after_dropping_extra_column', 'several_vv_rows_one_measurement',
-            'several_type0_rows_one_measurement', 'dtype_variant', 'extra_columns', 'valid_unchanged']
+            'several_type0_rows_one_measurement', 'dtype_variant', 'extra_columns', 'valid_unchanged', 'index_named_like_column']
 SIZES = {'quick': 3000, 'thorough': 60000}
 DEFECTS = ['none', 'none', 'drop_col', 'dup_row', 'dup_after_coercion', 'dup_after_extra_drop', 't0_same', 't0_other',
-           'vv_same', 'vv_other', 'two_vv', 'two_t0', 'dtypes', 'extra_cols', 'perm_cols', 'odd_index', 'empty',
+           'vv_same', 'vv_other', 'two_vv', 'two_t0', 'dtypes', 'extra_cols', 'perm_cols', 'odd_index', 'index_named_like_column', 'empty',
            'not_a_frame']
 
 
@@ -166,6 +166,9 @@ def inject(rng, df, defect, tags):
         out = df.copy()
         out.index = pd.Index(rng.permutation(len(df)) * 3 - 5) if rng.uniform() < 0.5 else pd.Index(['r%d' % (j // 2) for j in range(len(df))])
         return out
+    if defect == 'index_named_like_column':
+        tags.add('index_named_like_column')
+        return df.set_index(str(rng.choice(['dt', 'ceilo'])), drop=False) if rng.uniform() < 0.6 else df.set_index(['ceilo', 'dt'], drop=False)
     if defect == 'empty':
         return df.iloc[0:0] if rng.uniform() < 0.7 else pd.DataFrame()
     if defect == 'not_a_frame':
